@@ -24,7 +24,7 @@ def gen_pool(rng):
                 ca = rng.choice(ARCHSETS)                      # possibly foreign (incl. the pseudo-architectures) / empty
             else:
                 ca = ta
-            cuid = "%s-%s" % (t, cid) if rng.random() < 0.85 else rng.choice([cid, "%s_%s" % (t, cid), "X-%s" % cid])
+            cuid = "%s-%s" % (t, cid) if rng.random() < 0.85 else rng.choice([cid, "%s_%s" % (t, cid), "X-%s" % cid, t + cid, "%s-%s-%s" % (t[:3], t[3:], cid), "%s-%s-%s" % (t, cid[:2], cid[2:])])
             pool.append(mkv(cid, cuid, rng.choice(["optional", "addon", "variant", "layered-product"]), ca))
             if rng.random() < 0.4:
                 pool.append(mkv("sub", cuid + "-sub", "addon", ca[:1] or ["x86_64"]))
